@@ -1078,6 +1078,13 @@ impl World {
                 }
             }
         }
+        // observers created after the panic must not become readable through the refused stabilise
+        let mut late: Vec<(usize, Observer<SV>)> = vec![];
+        for n in self.cfg.observable.clone() {
+            if let Some(h) = self.s_handle(n) {
+                late.push((n, h.observe()));
+            }
+        }
         // a further stabilise must refuse to run
         let before = self.sh.log.borrow().len();
         let st = self.state.clone().unwrap();
@@ -1087,6 +1094,25 @@ impl World {
             Ok(()) => violation("C13/stabilise-runs-after-panic", format!("stabilise returned normally after a panic escaped the previous one ({ran} user functions ran)")),
             Err(_) if ran > 0 => violation("C13/stabilise-computes-before-refusing", format!("{ran} user functions ran in the stabilise after the poisoned one")),
             Err(_) => {}
+        }
+        for (n, o) in &late {
+            cover("observer-created-after-the-panic");
+            match o.try_get_value() {
+                Err(_) => {}
+                Ok(v) => {
+                    if !from_handler {
+                        violation("C13/late-observer-readable-after-panic-in-propagation", format!("observer created after the panic on node {n} returned {v:?}"));
+                    } else {
+                        let want = self.eval(*n, &mut memo);
+                        let (v2, w2, nn) = (v.clone(), want.clone(), *n);
+                        require("C13/late-observer-shows-stale-value", F::eq(&v, &want), move || format!("an observer created after a handler panic became readable through a refused stabilise and returned {v2:?} for node {nn}; the propagated value is {w2:?}"));
+                    }
+                }
+            }
+        }
+        // keep them alive until the world is dropped (their drop is part of the final teardown)
+        for (n, o) in late {
+            self.obs.borrow_mut().push(ObsSlot { handles: vec![o], node: n, st: OSt::Dead, last: None, subs: vec![], created_round: round, pinned: false, smuggled: None, state_unsub_after_gone: false });
         }
         let _ = log_start;
     }
